@@ -231,7 +231,7 @@ Proof. exact nonconforming_truncates. Qed.
 (* the reply position is necessary: with the 226 inside the `async with`, a buffering backend
    shows other sessions a stale (here: truncated, empty) file when the reply is queued *)
 Example C01_reply_inside_ctx_is_stale :
-  v_at_reply (v_run [9%Z] (stor_script false ["file_out"; "stream"] WB 0 [[1%Z]; [2%Z]] []))
+  v_at_reply (v_run [9%Z] (stor_script false ["FILE"; "STREAM"] WB 0 [[1%Z]; [2%Z]] []))
   = Some ([], true).
 Proof. exact reply_inside_ctx_stale. Qed.
 
